@@ -724,6 +724,28 @@ P["C12"]["units"] += [
     ops_unit("jwt_crypto_ops_supports_jwk", "jwt_crypto_ops_supports_jwk", "contract_C12_jwt_crypto_ops_supports_jwk", "jwt_crypto_ops_supports_jwk();")]
 for _u in P["C12"]["units"][-3:]:
     _u["expect"] = [_u["enforce"].split("/")[1] + "\\.postcondition\\.1"]
+
+# ---- C16: local (hence unbounded) shape contracts of the list primitives as jwks.c uses them ----
+_C16S = LIBC + ["stubs/alloc.c", "stubs/jansson.c"]
+P["C16"]["units"] += [
+    U("C16.jwks_new", "jwks_new -> INIT_LIST_HEAD (libjwt/jwks.c, libjwt/ll.h)", JWKS_C, "contracts/jwks_c.h", "jwks_new();", "jwks_new/contract_C16_jwks_new",
+      stubs=_C16S, defines=["VERIF_TU_JWKS"], flags=[], expect=["contract_C16_jwks_new\\.postcondition\\.1"], timeout=300),
+    U("C16.jwks_item_add", "jwks_item_add -> list_add_tail -> list_insert (libjwt/jwks.c, libjwt/ll.h)", JWKS_C, "contracts/jwks_c.h",
+      "jwk_set_t *s = malloc(sizeof(*s)); jwk_item_t *it = malloc(sizeof(*it)); __CPROVER_assume(s != NULL && it != NULL); "
+      "if (nondet_bool()) { s->head.next = &s->head; s->head.prev = &s->head; } "
+      "else { jwk_item_t *tail = malloc(sizeof(*tail)); __CPROVER_assume(tail != NULL); jwk_item_t *first = tail; "
+      "if (nondet_bool()) { first = malloc(sizeof(*first)); __CPROVER_assume(first != NULL); } "
+      "tail->node.next = &s->head; s->head.prev = &tail->node; s->head.next = &first->node; } "
+      "jwks_item_add(s, it);", "jwks_item_add/contract_C16_jwks_item_add",
+      stubs=_C16S, defines=["VERIF_TU_JWKS"], flags=[], expect=["contract_C16_jwks_item_add\\.postcondition\\.3"], timeout=300),
+    U("C16.__item_free", "__item_free -> list_del -> list_join_nodes (libjwt/jwks.c, libjwt/ll.h)", JWKS_C, "contracts/jwks_c.h",
+      "ITEM_FREE_TAKE_ADDRESSES; jwk_item_t *it = malloc(sizeof(*it)); __CPROVER_assume(it != NULL); "
+      "if (nondet_bool()) { jwk_set_t *s = malloc(sizeof(*s)); __CPROVER_assume(s != NULL); g_nb_prev = &s->head; g_nb_next = &s->head; } "
+      "else { jwk_item_t *a = malloc(sizeof(*a)), *b = malloc(sizeof(*b)); __CPROVER_assume(a != NULL && b != NULL); g_nb_prev = &a->node; g_nb_next = &b->node; } "
+      "it->node.prev = g_nb_prev; it->node.next = g_nb_next; g_nb_prev->next = &it->node; g_nb_next->prev = &it->node; "
+      "__item_free(it);", "__item_free/contract_C16___item_free",
+      stubs=_C16S, defines=["VERIF_TU_JWKS"], flags=[], expect=["contract_C16___item_free\\.postcondition\\.3"], timeout=600),
+]
 _REC_DOERS = ["__getter/contract_rec___getter", "__setter/contract_rec___setter", "__deleter/contract_rec___deleter"]
 for _w in ("header_get", "header_set", "claim_get", "claim_set"):
     P["C15"]["units"].append(U("C15.jwt_%s" % _w, "jwt_%s -> __run_it (libjwt/jwt-setget.c)" % _w, SETGET_C, "contracts/jwt_setget_c.h",
